@@ -2,6 +2,7 @@ from __future__ import annotations
 
 import builtins
 import re
+import unicodedata
 from email.message import Message
 from keyword import iskeyword
 from typing import Any
@@ -45,7 +46,10 @@ class ClassName(str):
 
 def sanitize(value: str) -> str:
     """Removes every character that isn't 0-9, A-Z, a-z, or a known delimiter"""
-    return re.sub(rf"[^\w{DELIMITERS}]+", "", value)
+    # Python compares identifiers after NFKC normalization, and `\w` matches characters (like "²") that are not
+    # allowed in identifiers at all, so normalize first and then keep only delimiters and identifier characters.
+    value = re.sub(rf"[^\w{DELIMITERS}]+", "", unicodedata.normalize("NFKC", value))
+    return "".join(c for c in value if c in ". _-" or f"_{c}".isidentifier())
 
 
 def split_words(value: str) -> list[str]:
